@@ -144,6 +144,21 @@ func cmdSelftest(args []string) int {
 	sort.Strings(funcs)
 	var cases []replayCase
 	engineObs := map[string]string{}
+	var obsFuncs []string
+	for _, f := range funcs {
+		if strings.HasPrefix(f, "H_sym_") {
+			// symbolic self-checks: identities of the string/byte model that must hold on every path
+			hr := explore(p, pkgs[rel], f, map[string]int{}, defaultOpts())
+			if len(hr.Violations) > 0 || hr.Unknowns > 0 || len(hr.Unsupported) > 0 || len(hr.EngineErrs) > 0 || hr.Outcomes["done"] != hr.Paths {
+				fail("symbolic self-check %s: outcomes=%v violations=%d unknown=%d unsupported=%v errors=%v", f, hr.Outcomes, len(hr.Violations), hr.Unknowns, hr.Unsupported, hr.EngineErrs)
+			} else {
+				fmt.Printf("selftest: %s: %d paths, every identity holds\n", f, hr.Paths)
+			}
+			continue
+		}
+		obsFuncs = append(obsFuncs, f)
+	}
+	funcs = obsFuncs
 	for _, f := range funcs {
 		fn := pkgs[rel].Func(f)
 		res := runPath(p, pkgs[rel], fn, map[string]int{}, nil, solver, defaultOpts(), func(string) bool { return false })
